@@ -71,10 +71,8 @@ Qed.
 (* F3 on the pinned tree: run() tests self.prepare_thread and reads it again to join it; the
    starter clears it in between (2 threads, 19 scheduled lines) -> the caller unwinds run() with
    AttributeError although the launch succeeded. *)
-Definition f3_scripts : list (list op) := [[Prepare]; [Call]].
-Definition f3_schedule : list tid :=
-  repeat (Cl 0) 6 ++ repeat (Cl 1) 7 ++ repeat (St 0) 5 ++ [Cl 1].
-
+(* witness: f3_scripts = [[Prepare]; [Call]], f3_schedule = thread 0 x 6, thread 1 x 7, starter x 5,
+   thread 1 x 1 (Proofs/ClientProofs.v) *)
 Theorem C16_F3_refuted : exists scripts sched,
   let s := run cfg_asis oracle_ok sched (init scripts) in
   ~ (forall i, on bad_pc (clients s i) = false) /\
